@@ -5,6 +5,8 @@ import (
 	"fmt"
 	"os"
 	"path/filepath"
+	"runtime"
+	"sync"
 	"testing"
 
 	"github.com/ipfs/go-cid"
@@ -186,6 +188,65 @@ func TestC11(t *testing.T) {
 			if err == nil {
 				checkSizes(c, st, linkCid(sl), ssz, "symlink")
 			}
+		})
+	}
+	// several builds running at once over one shared LinkSystem: the size bookkeeping of one
+	// build must not be disturbed by another (the store yields inside every commit to widen the window)
+	for i := 0; i < r.Pick(6, 40); i++ {
+		i := i
+		r.Case(fmt.Sprintf("concurrent/%d", i), map[string]any{"goroutines": 4, "round": i}, func(c *mon.Case) {
+			st := store.New()
+			st.OnCommit = func(*store.Store, cid.Cid, []byte) { runtime.Gosched() }
+			st.OnRead = func(cid.Cid) {}
+			ls := st.LinkSystem(false)
+			type res struct {
+				what string
+				root cid.Cid
+				size uint64
+				err  error
+			}
+			out := make([]res, 4)
+			var wg sync.WaitGroup
+			seeds := []int64{c.Rand().Int63(), c.Rand().Int63(), c.Rand().Int63(), c.Rand().Int63()}
+			for g := 0; g < 4; g++ {
+				wg.Add(1)
+				go func(g int) {
+					defer wg.Done()
+					rr := newRand(uint64(seeds[g]))
+					switch g % 2 {
+					case 0:
+						n := 50 + rr.Intn(400)
+						content := gen.Content(rr, "rand", n)
+						l, sz, err := builder.BuildUnixFSFile(bytes.NewReader(content), fmt.Sprintf("size-%d", 7+g), ls)
+						out[g] = res{fmt.Sprintf("file of %d bytes built concurrently", n), linkCid(l), sz, err}
+					default:
+						var entries []dagpb.PBLink
+						for k := 0; k < 20+rr.Intn(30); k++ {
+							data := []byte(fmt.Sprintf("g%d-child-%d-%d", g, k, rr.Int63()))
+							cl, csz, err := builder.BuildUnixFSFile(bytes.NewReader(data), "size-9", ls)
+							if err != nil {
+								out[g] = res{"child file", cid.Undef, 0, err}
+								return
+							}
+							e, _ := builder.BuildUnixFSDirectoryEntry(fmt.Sprintf("e%d", k), int64(csz), cl)
+							entries = append(entries, e)
+						}
+						l, sz, err := builder.BuildUnixFSShardedDirectory(8, multihash.MURMUR3X64_64, entries, ls)
+						out[g] = res{"sharded directory built concurrently", linkCid(l), sz, err}
+					}
+				}(g)
+			}
+			wg.Wait()
+			st.OnCommit = nil
+			for _, o := range out {
+				if o.err != nil {
+					c.Violation("C11|build-error", "%s: %v", o.what, o.err)
+					continue
+				}
+				checkSizes(c, st, o.root, o.size, o.what)
+			}
+			c.Count("concurrent_builds", 4)
+			c.Sig(fmt.Sprintf("concurrent|%d", i%4), true)
 		})
 	}
 	// recursive filesystem imports (incl. a file larger than one default chunk)
